@@ -75,6 +75,7 @@ let runners : (string * (z list -> z list)) list = [
   "deque", run_deque;
   "exc", run_exc;
   "suspend", run_suspend;
+  "suspconf", run_suspconf;
   "once", run_once;
   "onceconf", run_onceconf;
   "ets", run_ets;
